@@ -264,6 +264,27 @@ ADDENDA6 = {
 }
 
 
+ADDENDA7 = {
+    "C01": "Round 7: INSTR / STRING$ contracts discharged here too; values read back from array elements assigned from converted functions.",
+    "C02": "Round 7: statement lists that start with an empty statement.",
+    "C03": "Round 7: string capacity after other conversions in the same process.",
+    "C04": "Round 7: representation of every RUN argument (REAL / INTEGER / declared type / literal length) against the parameter's declared type and STRING[n] (BASIC09 passes storage without conversion).",
+    "C05": "Round 7: READ into several elements of one array whose subscripts are calls, with an empty DATA item.",
+    "C07": "Round 7: every procedure of the emitted bundle (sizes 32 / 40 / 16) parses and lowers, no size marker left; two-operand MID$.",
+    "C09": "Round 7: unterminated literal assigned to an element goes where the terminated spelling goes.",
+    "C10": "Round 7: DIM later in the text than the first reference; configuration file re-read for every conversion.",
+    "C11": "Round 7: refused programs stay refused with the same error under every option; configured sizes are untouched by -s.",
+    "C12": "Round 7: command-line history (start() called repeatedly); unconditional hash-seed sweep for five program x option pairs.",
+    "C13": "Round 7: size 16.",
+    "C14": "Round 7: RUN with an empty argument position.",
+    "C15": "Round 7: file names without an extension.",
+    "C16": "Round 7: a complete VEF of each supported type is accepted (guard against vacuous prefix cases).",
+    "C17": "Round 7: squashed VEF of types 0 / 1 / 3 with a record filling a whole half scan line (record loop fully unwound).",
+    "C18": "Round 7: the same squashed cases; complete RAT pictures with run packets at block edges.",
+    "C19": "Round 7: damaged VEF header must not end with exit status 0.",
+}
+
+
 def build():
     for pid, add in ADDENDA4.items():
         if add not in CHECKS[pid]["text"]:
@@ -275,6 +296,9 @@ def build():
         if add not in CHECKS[pid]["text"]:
             CHECKS[pid]["text"] = CHECKS[pid]["text"].rstrip() + " " + add
     for pid, add in ADDENDA6.items():
+        if add not in CHECKS[pid]["text"]:
+            CHECKS[pid]["text"] = CHECKS[pid]["text"].rstrip() + " " + add
+    for pid, add in ADDENDA7.items():
         if add not in CHECKS[pid]["text"]:
             CHECKS[pid]["text"] = CHECKS[pid]["text"].rstrip() + " " + add
     checks = []
